@@ -203,7 +203,7 @@ func (e k10Env) tag() string {
 	if cor == "" {
 		cor = "-"
 	}
-	return fmt.Sprintf("gen=%d final=%s dl=%s cor=%s imm=%s", e.gen, e.finalLetter(), b2s(e.deadline), cor, b2s(e.immediate))
+	return fmt.Sprintf("gen=%d final=%s dl=%s cor=%s imm=%s resp=%s", e.gen, e.finalLetter(), b2s(e.deadline), cor, b2s(e.immediate), e.respLetter())
 }
 
 // k10PubCalls counts the issuer-key public-key requests x509.CreateCertificate makes before / after signing.
@@ -301,6 +301,12 @@ func runK10Case(cs *k10Case, snaps map[string]*k10Snap, pre, post int) {
 			cs.find("c10/gcpkms/success-but-old-still-enabled/"+fc,
 				fmt.Sprintf("rotate.Key returned success but the previous primary %q is still ENABLED", oldPrimary), replay)
 		}
+	}
+	if len(cs.script) == 0 && cs.env.benign() && !strings.HasPrefix(res, "ok") {
+		// a benign environment (any generation countdown, any state in the Create response) and no fault:
+		// the request names a new certificate object, so the rotation has to succeed
+		cs.find("c10/gcpkms/fault-free-rotation-fails/"+fc, fmt.Sprintf("rotate.Key without any fault in a benign Cloud KMS environment (%s) failed: %s %v",
+			cs.env.tag(), res, rerr), replay)
 	}
 	st1 := k.render()
 	if destroyEarly != "" {
@@ -514,11 +520,15 @@ func runC10Kms(c *Ctx) {
 		{gen: 1, deadline: true}, {gen: 2, deadline: true},
 		// created already in the final state (no generation phase): live at once, or never live
 		{immediate: true}, {immediate: true, final: ksDisabled}, {immediate: true, final: ksGenFailed},
+		// the response reports a state the version is not in (the shipped code never reads it): ENABLED for a
+		// version that is PENDING_GENERATION / was created DISABLED, PENDING_GENERATION for one created DISABLED
+		{resp: ksEnabled}, {immediate: true, final: ksDisabled, resp: ksEnabled}, {immediate: true, final: ksDisabled, resp: ksPending},
+		{immediate: true, resp: ksDisabled},
 	}
 	var envBase []*k10Case
 	for _, e := range envs {
 		for _, ca := range cas {
-			if c.Quick() && ca == "gcslocal" && e.corrupt != "sigcrc" && e.final != ksDisabled && !e.immediate {
+			if c.Quick() && ca == "gcslocal" && e.corrupt != "sigcrc" && e.final != ksDisabled && !e.immediate && e.resp == 0 {
 				continue
 			}
 			envBase = append(envBase, &k10Case{ca: ca, hist: 0, overwrite: false, script: map[int]int{}, env: e, seed: c.Rng.Next()})
@@ -532,11 +542,6 @@ func runC10Kms(c *Ctx) {
 			continue
 		}
 		for pos := 0; pos < b.logLen; pos++ {
-			if b.env.immediate && pos < 3 {
-				// km.create, kms.create, kms.get: a run cut before the first poll has answered leaves the version
-				// in the state it was created in, which for an immediate version is not the model's "P0"
-				continue
-			}
 			for _, o := range []int{fFail, fCrash} {
 				envSingles = append(envSingles, &k10Case{ca: b.ca, hist: 0, overwrite: false, script: map[int]int{pos: o}, env: b.env, seed: c.Rng.Next()})
 			}
@@ -546,7 +551,12 @@ func runC10Kms(c *Ctx) {
 		var keep []*k10Case
 		step := (len(envSingles) + 119) / 120
 		for i, p := range envSingles {
-			if i%step == 0 {
+			// a fault before the first poll has answered leaves a version in the state it was created in: always kept
+			early := false
+			for pos := range p.script {
+				early = p.env.immediate && pos < 3
+			}
+			if i%step == 0 || early {
 				keep = append(keep, p)
 			}
 		}
@@ -586,9 +596,7 @@ func runC10Kms(c *Ctx) {
 			}
 			e := k10Env{}
 			if c.Rng.Intn(3) == 0 {
-				if e = envs[c.Rng.Intn(len(envs))]; e.immediate {
-					e = k10Env{} // immediate versions only with the scripts above (faults after the first poll)
-				}
+				e = envs[c.Rng.Intn(len(envs))]
 			}
 			rnd = append(rnd, &k10Case{ca: b.ca, hist: b.hist, overwrite: b.overwrite, script: sc, env: e, seed: c.Rng.Next()})
 		}
